@@ -1378,10 +1378,11 @@ class ServiceClass:
         if isinstance(status, Dataset):
             # Check that the returned status dataset contains a Status element
             if "Status" in status:
-                # For the elements in the status dataset, try and set the
-                #   corresponding response primitive attribute
+                # For the (status related) elements in the status dataset, try
+                #   and set the corresponding response primitive attribute
+                allowed = ("Status",) + tuple(rsp.STATUS_OPTIONAL_KEYWORDS)
                 for elem in status:
-                    if hasattr(rsp, elem.keyword):
+                    if elem.keyword in allowed and hasattr(rsp, elem.keyword):
                         setattr(rsp, elem.keyword, elem.value)
                     else:
                         LOGGER.warning(
